@@ -1,8 +1,9 @@
 #!/bin/sh
 # usage: verify_seed.sh <Cxx> <mk> [patchfile]   -> confirms a seeded change in a scratch worktree of /repo HEAD and,
 # when confirmed, stores it as /verif/seeded/<Cxx>-<mk>/ {patch.diff (rebased on HEAD), demo.py, meta.json}
-id=$1; mk=$2; src=/tmp/wt/out/$id/$mk; patch=${3:-$src/patch.diff}
-name=vs-$id-$mk
+# env: SEED_SRC (default /tmp/wt/out) = root of the agents' outputs, SEED_TAG = prefix of the stored name (e.g. r2)
+id=$1; mk=$2; src=${SEED_SRC:-/tmp/wt/out}/$id/$mk; patch=${3:-$src/patch.diff}
+name=vs-$id-${SEED_TAG}$mk
 wt=$(/verif/tools/mkwt.sh $name) || exit 2
 cd $wt
 if ! git apply "$patch" 2>/dev/null; then
@@ -18,7 +19,7 @@ ok=no
 case "$suite" in *SUITE-OK*) if [ $rc_mut -ne 0 ] && [ $rc_clean -eq 0 ]; then ok=yes; fi;; esac
 echo "$id/$mk confirmed=$ok demo_with_patch_rc=$rc_mut demo_clean_rc=$rc_clean suite=[$suite]"
 if [ $ok = yes ]; then
-  d=/verif/seeded/$id-$mk; mkdir -p $d
+  d=/verif/seeded/$id-${SEED_TAG}$mk; mkdir -p $d
   cp /tmp/wt/$name.rebased.diff $d/patch.diff; cp $src/demo.py $d/demo.py
   /venv/bin/python - "$src/meta.json" "$d/meta.json" "$id" "$rc_mut" "$rc_clean" "$suite" <<'PY'
 import json,sys,subprocess
